@@ -195,6 +195,11 @@ pub struct Interp<F: Family> {
     pub op_hist: HashMap<&'static str, u64>,
     pub stats: HashMap<String, u64>,
     pub alloc_base: (i64, i64, u64, u64),
+    /// C06, lock step: `(a, b)` — `b` was made by round-tripping `a`, the round trip compared equal,
+    /// and since then both received the same operations, one right after the other
+    pub twin: Option<(usize, usize)>,
+    /// the operation one twin has received and the other has not yet: (world, key, identifiers issued)
+    pub twin_pending: Option<(usize, String, Option<String>)>,
 }
 
 pub fn render_dump<F: Family>(w: &mut F::W) -> String {
@@ -333,6 +338,8 @@ impl<F: Family + 'static> Interp<F> {
             case_name: String::new(),
             issued: vec![vec![]; 4],
             ops_run: 0,
+            twin: None,
+            twin_pending: None,
             op_hist: HashMap::new(),
             stats: HashMap::new(),
             alloc_base: (0, 0, 0, 0),
@@ -422,16 +429,77 @@ impl<F: Family + 'static> Interp<F> {
                 None => self.exec(w, &Op::Len),
             };
         }
+        if let Op::Raw(name, args) = op {
+            if name == "de" && args.len() == 4 {
+                if let (Ok(src), Ok(e)) = (args[2].parse::<usize>(), args[1].parse::<u64>()) {
+                    // an unmutated round trip of world `src`: the tokens are what `src` serializes to
+                    // NOW (a replay whose history was shrunk may carry the tokens of another state)
+                    match crate::serde_ops::build_de::<F>(self, src, args[0] == "rows", e, &[]) {
+                        Some(Op::Raw(_, fresh)) => {
+                            if fresh[3] != args[3] {
+                                return self.exec(w, &Op::Raw("de".into(), fresh));
+                            }
+                        }
+                        _ => return self.exec(w, &Op::Len),
+                    }
+                }
+            }
+        }
         let order = if matches!(op, Op::Clear) { self.clear_order(w) } else { String::new() };
         let line = op.render(w, &order);
         self.line(&line);
         self.flush();
         self.ops_run += 1;
         take_drops();
+        take_drops();
         let was = crate::alloc_audit::set_in_lib(true);
         let result = catch_unwind(AssertUnwindSafe(|| self.exec_inner(w, op)));
         crate::alloc_audit::set_in_lib(was);
         let drops = take_drops();
+        // C06: a round-tripped world "from then on behaves identically to the original under any
+        // further operations (same identifiers issued …)": while a world and its round-tripped copy
+        // receive the same operations in lock step, the identifiers they are handed must be equal
+        {
+            let key: Option<String> = match op {
+                Op::Extend { shape, rows } => Some(format!("extend {:?} {}", shape, rows.len())),
+                Op::Insert { shape, .. } => Some(format!("insert {:?}", shape)),
+                Op::Clear => Some("clear".into()),
+                Op::Remove(id) => Some(format!("remove {}", fmt_id(*id))),
+                Op::Shrink => Some("shrink".into()),
+                _ => None,
+            };
+            let res_s: Option<&String> = match &result { Ok(Some(r)) => Some(r), _ => None };
+            let ids: Option<String> = res_s.and_then(|r| r.split_whitespace().find_map(|t| t.strip_prefix("ids=").or_else(|| t.strip_prefix("id=")).map(|x| x.to_string())));
+            let mut new_twin = None;
+            if let Op::Raw(name, args) = op {
+                if name == "de" && args.len() == 4 {
+                    if let (Ok(src), Some(r)) = (args[2].parse::<usize>(), res_s) {
+                        if r.starts_with("ok eq=1") && src != w {
+                            new_twin = Some((src, w));
+                        }
+                    }
+                }
+            }
+            let writes_w = !matches!(op, Op::Eq(_) | Op::Len | Op::Probe(_));
+            if new_twin.is_some() {
+                self.twin = new_twin;
+                self.twin_pending = None;
+            } else if let Some((a, b)) = self.twin {
+                if (w == a || w == b) && writes_w {
+                    match (self.twin_pending.take(), key) {
+                        (None, Some(k)) => self.twin_pending = Some((w, k, ids)),
+                        (Some((pw, pk, pids)), Some(k)) if pw != w && pk == k => {
+                            if let (Some(x), Some(y)) = (&pids, &ids) {
+                                if x != y {
+                                    ledger_error(format!("oracle=lockstep world {} and its round-tripped copy {} received the same operations, then `{}` issued [{}] in one and [{}] in the other", a, b, k, x, y));
+                                }
+                            }
+                        }
+                        _ => self.twin = None,
+                    }
+                }
+            }
+        }
         let r = match result {
             Ok(Some(mut r)) => {
                 if r.contains("drops=@") {
@@ -775,6 +843,15 @@ pub fn run_case<F: Family>(it: &mut Interp<F>, name: &str, seed: u64, cfg: &GenC
                         }
                     }
                 }
+                // sometimes both are cleared first: the order in which `clear` visits the tables differs
+                // between a world and its copy (the table is keyed by addresses)
+                if g.rng.below(3) == 0 {
+                    it.exec(w, &Op::Clear);
+                    if copied && it.worlds[o].is_some() {
+                        it.exec(o, &Op::Clear);
+                    }
+                    it.bump("ring-churn:clear");
+                }
                 let fl = free_len::<F>(it.worlds[w].as_ref().unwrap());
                 let shape = { let mut sh = pick_shape(&mut g); if sh.is_empty() { sh = work.iter().find(|x| !x.is_empty()).map(|x| x.to_vec()).unwrap_or(sh); } sh };
                 let n = if shape.is_empty() { 0 } else { (fl + g.rng.below(3) as usize).saturating_sub(g.rng.below(2) as usize).min(12) };
@@ -783,11 +860,9 @@ pub fn run_case<F: Family>(it: &mut Interp<F>, name: &str, seed: u64, cfg: &GenC
                 if copied && it.worlds[o].is_some() {
                     let rows: Vec<Vec<u64>> = (0..n).map(|_| shape.iter().map(|_| g.val()).collect()).collect();
                     let r2 = it.exec(o, &Op::Extend { shape, rows });
-                    // C06: a round-tripped world behaves identically under further operations (same identifiers issued)
-                    let ids = |r: &str| r.split_whitespace().find_map(|t| t.strip_prefix("ids=").map(|x| x.to_string()));
-                    if round_tripped && ids(&r1).is_some() && ids(&r2).is_some() && ids(&r1) != ids(&r2) {
-                        ledger_error(format!("oracle=lockstep the same extend issued [{}] to the original and [{}] to its round-tripped copy", ids(&r1).unwrap(), ids(&r2).unwrap()));
-                    }
+                    // (the executor compares the identifiers of two consecutive equal batches into worlds
+                    // that compared equal: oracle=lockstep)
+                    let _ = (&r1, &r2, round_tripped);
                     it.exec(w, &Op::Eq(o));
                 }
                 it.bump("ring-churn");
